@@ -65,7 +65,10 @@ func cmdConcRace(args []string) error {
 		lines = append(lines, "/k1$domain=example.org,script", "/k2$domain=example.org,script", "/k3$domain=example.org,script",
 			"/k1$domain=a.example.org,script", "/k2$domain=b.example.org,script", "/k3$domain=sub.example.org,script", "@@/k2$domain=b.example.org,script",
 			// ... and a rule filed under a domain and under its own sub-domain: one request meets it on two levels
-			"/k1$domain=example.org|sub.example.org,script")
+			"/k1$domain=example.org|sub.example.org,script",
+			// ... and a rule with its $badfilter twin, their domains written in no particular order: comparing the two is a
+			// read of both, whoever asks
+			"/k2$domain=b.example.org|a.example.org|sub.example.org,script", "/k2$domain=b.example.org|a.example.org|sub.example.org,script,badfilter")
 		var qs []*histQuery
 		for i := 0; i < 60; i++ {
 			qs = append(qs, rndHistQuery(rnd))
